@@ -560,6 +560,26 @@ pub fn run_on(bytes: &[u8], tags: &[&'static str], order: u8, heavy: bool, istar
     Ok(())
 }
 
+/// Large messages: sizes around 0x3FFF/0x4000 and up to 65535 octets,
+/// valid or mutated.
+fn run_big(data: &[u8], ctx: &mut Ctx) -> CaseResult {
+    let mut u = Unstructured::new(data);
+    let order = byte(&mut u);
+    let istart = u16_(&mut u) as usize;
+    let g = crate::gen::bigmsg::big_message(&mut u, gm::MsgOpts::default());
+    let mut bytes = g.bytes;
+    let mut tags: Vec<&'static str> = vec!["big"];
+    if bytes.len() >= 0x4000 { tags.push("size>=0x4000"); }
+    if bytes.len() >= 65500 { tags.push("size>=65500"); }
+    if chance(&mut u, 128) {
+        tags.extend(gm::mutate(&mut u, &mut bytes, &g.layout));
+        tags.push("mutated");
+    } else {
+        tags.push("valid");
+    }
+    run_on(&bytes, &tags, order, false, istart, ctx)
+}
+
 /// Raw bytes entry (fuzz target and raw PBT family).
 pub fn run_raw(data: &[u8], ctx: &mut Ctx) -> CaseResult {
     if data.len() < 3 {
@@ -569,7 +589,7 @@ pub fn run_raw(data: &[u8], ctx: &mut Ctx) -> CaseResult {
 }
 
 fn health(c: &BTreeMap<String, u64>, _t: bool) -> Result<(), String> {
-    for k in ["has-pointer", "mutated", "valid", "raw", "pointer-planted", "rdlen-mismatch", "count=0xFFFF", "truncated", "typed-ok:SOA", "typed-ok:RRSIG", "typed-ok:SVCB", "typed-ok:OPT", "error-after-ok"] {
+    for k in ["size>=0x4000", "size>=65500", "has-pointer", "mutated", "valid", "raw", "pointer-planted", "rdlen-mismatch", "count=0xFFFF", "truncated", "typed-ok:SOA", "typed-ok:RRSIG", "typed-ok:SVCB", "typed-ok:OPT", "error-after-ok"] {
         if c.get(k).copied().unwrap_or(0) < 5 {
             return Err(format!("class {k} starved ({:?})", c.get(k)));
         }
@@ -585,6 +605,7 @@ pub fn prop() -> Prop {
         subchecks: vec![
             SubCheck::new("msg", run_msg, 400_000, 8_000_000, 1500),
             SubCheck::new("raw", run_raw, 150_000, 3_000_000, 700),
+            SubCheck::new("big", run_big, 6_000, 200_000, 400),
         ],
         health: Some(health),
         extra: None,
